@@ -56,6 +56,22 @@ claim("C20", "exploration", SIM + "; reference GPU/sound/entropy/RTC/9P devices 
       "Reference devices decode each command against structures transcribed from the specification (field positions, sizes, reserved fields, command order, backing pinned while attached, PCM chunking/ordering); success and error-response batches are separate; returned values compared with what the device reported, EDID via an independent decoder.",
       "Resolutions bounded; after a device error the run ends; sampling.", "6/C20")
 
+claim("C08", "exploration", SIM + "; ordered seam log of construction for every driver x transport kind, reference devices judging behaviour under the negotiated features",
+      "Grid of 11 drivers x 8 transport kinds (model, real MMIO legacy/modern, real PCI, SomeTransport) visited every round with drawn offered-feature sets; the ordered transport log must show reset, ACKNOWLEDGE|DRIVER, feature read, accepted set within offered and supported (VERSION_1 if offered), FEATURES_OK, queue setup, DRIVER_OK last, no notification before it; then a usage script is judged by the reference devices (indirect, event index, access_platform argument, flush/EDID/size gating, net header).",
+      "Transport x driver grid exhaustive, feature sets sampled; HypPciTransport excluded.", "6/C08")
+claim("C09", "fault_enumeration", SIM + "; the k-th DMA allocation fails for every k, always-on release monitors, drop at random points",
+      "For every driver x transport kind x k the k-th DMA allocation of construction + usage fails: the call must return DmaError, everything allocated must come back exactly once with original arguments; monitors for queue memory of a live queue, pinned device memory and posted heap buffers run in every scenario; drop histories with requests outstanding on all transports; construction failing on malformed configuration.",
+      "k enumerated 1..14 per cell (covers the largest allocation count, 12); histories sampled.", "6/C09")
+claim("C11", "exploration", SIM + "; emulated PCI function with generated capabilities and BARs behind the MMIO seam, independent 128-bit verdict",
+      "Generated configuration spaces through the real PciTransport::new (direct access and real MmioCam CAM/ECAM); verdict valid/invalid/either computed independently; construction may not panic, may not write configuration registers other than command/BARs, may only map windows inside memory BARs; valid functions are driven through every operation with strict checking of window, field offset, access width, ordering, notify address, reset wait.",
+      "Sampling of functions; one recorded known finding (capability naming the upper half of a 64-bit BAR).", "6/C11")
+claim("C12", "exploration", SIM + "; stateful reference PCI function, ordered configuration log; cam_offset swept completely",
+      "BAR layouts of every kind/size/slot with every command value probed through bar_info()/bars() behind both access paths: result equality, command and BARs restored (also on error returns), no BAR write while decoding; configuration addressing decoded back by the emulator; bus enumeration and capability walking against generated populations/lists; complete sweep of cam_offset as an exhaustive sub-space.",
+      "Sampling except the cam_offset sweep; cyclic capability lists and BARs without writable bits excluded.", "6/C12")
+claim("C13", "exploration", SIM + "; bounds via MMIO trace with offsets up to usize::MAX; configuration agent scheduled between individual register reads",
+      "Real MMIO and PCI transports: every access either lies wholly inside the window and touches exactly those bytes, or fails with the right error and no access, no panic; multi-field reads (blk capacity, vsock CID, console size, MAC, 9P tag) against a scheduler-controlled agent that installs self-identifying configuration versions at any access: the assembled value must belong to one exposed version.",
+      "Legacy MMIO has no generation register (excluded for torn reads); sampling.", "6/C13")
+
 TODO_REASON = "check not built yet in this round (planned, see DESIGN.md section 11); no claim is made"
 ALL = ["C%02d" % i for i in range(1, 21)]
 
